@@ -300,8 +300,27 @@ def r6_containment(run, F):
         run.ob("R6-CONTAINMENT-VISITS", fn, ok, F.where(b), "%s must go through use_containee" % fn)
 
 
+def r7_wellformed_at_every_position(run, F):
+    """Ill-formed types are rejected (E350) by parse_wellformed_type, and later stages *assert* well-formedness instead of
+    diagnosing it.  Who may call: the raw type parser parse_inner_type is called only by itself and by parse_wellformed_type;
+    every type position of the grammar (constant, member, parameter, return type, variable, cast, size-of) goes through
+    parse_wellformed_type."""
+    g = mirq.callgraph(F.lib)
+    raw = "alpha::parser::parse_inner_type"
+    ok_callers = {raw, "alpha::parser::parse_wellformed_type"}
+    callers = sorted(f for f, outs in g.items() if raw in outs)
+    for c in callers:
+        run.ob("R7-WELLFORMED-EVERYWHERE", "caller %s" % c.split("::")[-1], c.split("::{closure")[0] in ok_callers, F.where(F.body(c.split("::{closure")[0])),
+               "%s parses a type with parse_inner_type, bypassing the well-formedness check: an ill-formed type in that position is not "
+               "E350 but an assertion failure or an unreachable!() in a later stage" % c)
+    wf = sorted(f for f, outs in g.items() if "alpha::parser::parse_wellformed_type" in outs)
+    run.ob("R7-WELLFORMED-EVERYWHERE", "positions", len(wf) >= 7 and callers, "src/alpha/parser.rs",
+           "%d functions parse types through parse_wellformed_type (7 counted: constant, member, parameter, signature, cast, statement, size-of)" % len(wf))
+
+
 def check(run):
     F = run.facts("B")
+    r7_wellformed_at_every_position(run, F)
     # E380 (a word larger than declared) is decided from the size model of align_struct (shared with C10.R2)
     from props import c10 as _c10
     _c10.r2b_member_padding(run, F)
